@@ -82,6 +82,8 @@ def _process_many(*args, connectable, zip, combine):
 
         is_done = [False] * n
         source_failed = []
+        all_notified = []
+        errors = []
 
         def done(i):
             # the stream completes when all branches have completed
@@ -90,10 +92,23 @@ def _process_many(*args, connectable, zip, combine):
                 observer.on_completed()
 
         def on_error(i, e):
-            # an error of the source reaches every branch: it is forwarded by
-            # the tap subscribed after them, once they all have seen it
-            if len(source_failed) == 0:
+            if len(source_failed) > 0 and len(all_notified) == 0:
+                # the source failed and this branch forwards its error (as is
+                # or transformed) while the other branches are being
+                # notified: it is forwarded once they all have seen it
+                errors.append(e)
+            else:
+                # an error of the branch itself, or the error of the source
+                # delivered late by an asynchronous branch
                 observer.on_error(e)
+
+        def on_source_error_notified(_):
+            # every branch has seen the error of the source. A branch that
+            # handles it (catch, observe_on...) terminates the stream later
+            # by itself.
+            all_notified.append(True)
+            if len(errors) > 0:
+                observer.on_error(errors[0])
 
         subscriptions = [None] * n
         # subscribed before the branches: notified first of a source error
@@ -110,7 +125,7 @@ def _process_many(*args, connectable, zip, combine):
             )
         # subscribed after the branches: notified last of a source error
         subscriptions.append(connectable.subscribe(
-            on_error=observer.on_error,
+            on_error=on_source_error_notified,
             scheduler=scheduler,
         ))
         subscriptions.append(connectable.connect(scheduler=scheduler))
